@@ -277,11 +277,15 @@ class PulserData:
 
         self.full_interaction_matrix = None
         if config.interaction_matrix is not None:
-            assert len(config.interaction_matrix) == self.qubit_count, (
+            custom_matrix = config.interaction_matrix.as_tensor()
+            if custom_matrix.dim() == 3:
+                # pulser-core >= 1.9 stores the user matrix packed as (1, N, N)
+                custom_matrix = custom_matrix[0]
+            assert len(custom_matrix) == self.qubit_count, (
                 "The number of qubits in the register should be the same as the size of "
                 "the interaction matrix"
             )
-            self.full_interaction_matrix = config.interaction_matrix.as_tensor()
+            self.full_interaction_matrix = custom_matrix
 
         self.interaction_cutoff = config.interaction_cutoff
         self.slm_end_time = (
